@@ -68,6 +68,15 @@ Fixpoint find_rate (rates : list rate) (p : Z) : option rate :=
 Definition update_set (rates : list rate) (s : bset) : bset :=
   map (fun b => match find_rate rates (period b) with Some r => update r b | None => b end) s.
 
+(* Update in full (rates extracted per request may change the period set): a bucket whose period has no rate is
+   deleted, one whose period has a rate is updated, a rate without bucket gets a new bucket, full and refreshed now.
+   The Go map becomes the list ordered as the rate list (the harness lists rates, and reads buckets, by ascending period).
+   With an unchanged period set this is update_set (Proofs/LimiterDyn.v: update_full_conform). *)
+Fixpoint find_bucket (s : bset) (p : Z) : option bucket :=
+  match s with [] => None | b :: s' => if period b =? p then Some b else find_bucket s' p end.
+Definition update_full (now : Z) (rates : list rate) (s : bset) : bset :=
+  map (fun r => match find_bucket s (r_period r) with Some b => update r b | None => new_bucket now r end) rates.
+
 Inductive set_outcome := SAdmit | SReject (delay : Z) | SError.
 
 Fixpoint consume_all (now n : Z) (s : bset) : list outcome * bset :=
